@@ -706,6 +706,11 @@ func (x *rawRun) onEmit(d *Decoded) {
 			}
 		}
 	}
+	// a segment that lies wholly below the cumulative ACK the peer has already delivered: the
+	// stack did not take that ACK (it retransmits what was acknowledged)
+	if sl := uint32(n) + uint32(t.Flags&ref.FIN); sl > 0 && x.haveAdv && ref.SeqLEQ(seq+sl, x.advAck) && (x.has('s') || x.has('w') || x.has('r') || x.has('c')) {
+		x.fail("C01", "acked-data-retransmitted", "acked-data-retransmitted", "the stack sends seq+%d len %d (fin=%v) although the peer's ACK +%d, delivered earlier, covers all of it: that ACK was not taken", seq-x.sIss, n, t.Flags&ref.FIN != 0, x.advAck-x.sIss)
+	}
 	// --- C05 bookkeeping
 	rtx := false
 	for _, s := range x.sent {
